@@ -120,3 +120,28 @@ package pebbledb
 //@   requires nonnil: ptx.db != nil
 //@   ensures found: result.1 == nil <==> kvhas(id)
 //@   ensures value: result.1 == nil ==> result.0 == kvval(id)
+
+// ---- C10/C04: writes inside a pebble "transaction" -------------------------------------
+// Against the KVTransaction contract of spec/kv.gvc: the write happens (ok/fail), but it must
+// not be a top-level write of its own - a transaction is ONE atomic write of the store.
+// KNOWN FINDING (clause deferred): the pebble driver has no transactions; Update hands the
+// database itself to the function, so every Set/Delete inside it is applied (and durable) at
+// once, and a crash between two of them leaves the partial state that C04 excludes.
+//@ func (pebbleTransaction).Set
+//@   vars ptx id val
+//@   property C10 C04
+//@   option prelude=kv,kvlib
+//@   modifies KV.
+//@   requires nonnil: ptx.db != nil
+//@   ensures ok: result == nil ==> same(kvdom(), store(old(kvdom()), id, true)) && same(kvvals(), store(old(kvvals()), id, val))
+//@   ensures fail: result != nil ==> same(kvdom(), old(kvdom())) && same(kvvals(), old(kvvals()))
+//@   ensures deferred: kvwrites() == old(kvwrites())
+//@ func (pebbleTransaction).Delete
+//@   vars ptx id
+//@   property C10 C04
+//@   option prelude=kv,kvlib
+//@   modifies KV.
+//@   requires nonnil: ptx.db != nil
+//@   ensures ok: result == nil ==> same(kvdom(), store(old(kvdom()), id, false)) && same(kvvals(), old(kvvals()))
+//@   ensures fail: result != nil ==> same(kvdom(), old(kvdom())) && same(kvvals(), old(kvvals()))
+//@   ensures deferred: kvwrites() == old(kvwrites())
